@@ -121,7 +121,19 @@ fn result_json(prop: &dyn Property, res: &RunResult) -> Value {
     })
 }
 
+/// A runaway allocation in the code under test must not take the machine down (no swap; the kernel's
+/// OOM killer picks its own victim): cap the address space of every process that runs cases. An
+/// allocation beyond the cap aborts that process, which the supervisor sees as a crash of that case.
+fn cap_memory() {
+    let gib: u64 = std::env::var("VERIF_MEM_GIB").ok().and_then(|s| s.parse().ok()).unwrap_or(24);
+    let lim = libc::rlimit { rlim_cur: gib << 30, rlim_max: gib << 30 };
+    unsafe {
+        libc::setrlimit(libc::RLIMIT_AS, &lim);
+    }
+}
+
 pub fn child_main(prop: &dyn Property, tier: Tier, out: &Path, progress: &Path) -> i32 {
+    cap_memory();
     install_panic_hook();
     let ctx = Ctx { tier, seed: seed_from_env(), known: known_for(prop.id()) };
     let pf = FileProgress {
@@ -154,6 +166,7 @@ pub fn child_main(prop: &dyn Property, tier: Tier, out: &Path, progress: &Path) 
 }
 
 pub fn trace_main(prop: &dyn Property, tier: Tier, fam: &str, chunk: u64, tracefile: &Path) -> i32 {
+    cap_memory();
     install_panic_hook();
     let ctx = Ctx { tier, seed: seed_from_env(), known: known_for(prop.id()) };
     let tf = tracefile.to_path_buf();
@@ -166,6 +179,7 @@ pub fn trace_main(prop: &dyn Property, tier: Tier, fam: &str, chunk: u64, tracef
 
 /// exit 0: pass/skip; exit 3: fail (failure JSON on stdout); signal: crash
 pub fn eval_main(prop: &dyn Property, tier: Tier, casefile: &Path, strict: bool) -> i32 {
+    cap_memory();
     install_panic_hook();
     let known = if strict { Known::default() } else { known_for(prop.id()) };
     let ctx = Ctx { tier, seed: seed_from_env(), known };
@@ -223,6 +237,8 @@ fn crash_failure(sig: i32, stderr: &str) -> Failure {
     let tail: String = stderr.lines().rev().take(6).collect::<Vec<_>>().into_iter().rev().collect::<Vec<_>>().join("\n");
     let s = if stderr.contains("overflowed its stack") {
         "abort:stack-overflow".to_string()
+    } else if stderr.contains("memory allocation of") {
+        "abort:out-of-memory".to_string()
     } else {
         format!("abort:{}", signal_name(sig))
     };
